@@ -83,6 +83,7 @@ class DiagonalGridSearchOptimizer(BaseOptimizer):
 
     @BaseOptimizer.track_new_pos
     def iterate(self):
+        first_try = True
         # while loop for constraint opt
         while True:
             # If this is the first iteration:
@@ -111,8 +112,15 @@ class DiagonalGridSearchOptimizer(BaseOptimizer):
                 * self.step_size
                 // self.conv.search_space_size
             )
-            # Begin the next pass if current is finished.
-            if current_pass_finished:
+            # Begin the next pass if current is finished
+            # (a retry after an infeasible position keeps stepping instead).
+            if not first_try:
+                # the direction is a generator of Z/(search_space_size*Z):
+                # single steps reach a feasible position if there is one
+                self.high_dim_pointer = (
+                    self.high_dim_pointer + self.direction_calc
+                ) % self.conv.search_space_size
+            elif current_pass_finished:
                 self.high_dim_pointer = current_pass + 1
             else:
                 # Otherwise update pointer in Z/(search_space_size*Z)
@@ -128,6 +136,7 @@ class DiagonalGridSearchOptimizer(BaseOptimizer):
 
             if self.conv.not_in_constraint(pos_new):
                 return pos_new
+            first_try = False
 
     @BaseOptimizer.track_new_score
     def evaluate(self, score_new):
